@@ -27,7 +27,7 @@ m = {
  "hooks": {
   "guard": "cargo feature verif_hooks (crate mls-rs)",
   "enable": "the harness crate /verif/harness depends on /repo/mls-rs by path with features=[\"verif_hooks\", ...]; ./check rebuilds it from /repo's working tree",
-  "baseline_off_cmd": "cd /repo && cargo nextest run --workspace --no-fail-fast --test-threads 8 --offline || cargo test --workspace --no-fail-fast --offline",
+  "baseline_off_cmd": "cd /repo && cargo test --workspace --no-fail-fast --offline",
   "source_commits": hook_commits(),
   "add_only": True,
  },
